@@ -60,9 +60,31 @@ Verdict(run) ==
                ELSE IF dev \in EnabledDevs THEN "known" ELSE "viol",
          errors |-> {w \in ids : run.err[w]}]
 
+\* histories without any overlap, issued through two long-lived store objects in turn: every
+\* answer is the sequential one, the final state is the sequential one
+RECURSIVE SeqFold(_, _, _, _)
+SeqFold(m, ops, res, k) ==
+    IF k > Len(ops) THEN [bad |-> 0, m |-> m]
+    ELSE LET s == SeqApply(m, ops[k]) IN
+         IF res[k] \notin s.rs THEN [bad |-> k, m |-> m] ELSE SeqFold(s.m, ops, res, k + 1)
+SeqVerdict(run) ==
+    LET f == SeqFold(run.init, run.ops, run.res, 1)
+        clause ==
+            IF ~run.opens \/ ~run.fsck THEN "repository-damaged"
+            ELSE IF f.bad # 0 THEN "wrong-answer-in-a-sequential-history"
+            ELSE IF f.m # run.final THEN "wrong-final-state-of-a-sequential-history"
+            ELSE IF ~UidUniqueIn(run.final) THEN "duplicate-uid"
+            ELSE IF \E k \in DOMAIN run.etag_ok : ~run.etag_ok[k] THEN "put-answered-with-the-etag-of-other-contents"
+            ELSE IF ~run.views_ok THEN "stale-view-in-a-sequential-history"
+            ELSE "ok"
+        dev == "race:" \o run.kind \o ":sequential-two-processes:" \o clause
+    IN  [id |-> run.id, clause |-> clause, dev |-> dev,
+         k |-> IF clause = "ok" THEN "ok" ELSE IF dev \in EnabledDevs THEN "known" ELSE "viol",
+         errors |-> {}]
+
 Init == rid \in DOMAIN Runs /\ done = FALSE /\ TLCSet(1, {})
 Next == /\ ~done
-        /\ TLCSet(1, TLCGet(1) \cup {Verdict(Runs[rid])})
+        /\ TLCSet(1, TLCGet(1) \cup {IF "who" \in DOMAIN Runs[rid] THEN SeqVerdict(Runs[rid]) ELSE Verdict(Runs[rid])})
         /\ done' = TRUE /\ UNCHANGED rid
 Spec == Init /\ [][Next]_vars
 Done == JsonSerialize(IOEnv.RESULT_FILE, [results |-> TLCGet(1)])
